@@ -203,14 +203,14 @@ def _(self: RemoteStreamFlowPath) -> Int:
 def _(self: RemoteStreamFlowPath, target: Str, target_is_directory: Bool = False):
     assigns(LOG.cmds)
     raises(WorkflowExecutionException)
-    ensures(ran(old(LOG.cmds), ["ln", "-snf", q(target), q(self.text)]))
+    ensures(ran(old(LOG.cmds), ["ln", "-snf", "--", q(target), q(self.text)]))
 
 
 @contract("streamflow/data/remotepath.py", "RemoteStreamFlowPath.hardlink_to")
 def _(self: RemoteStreamFlowPath, target: Str):
     assigns(LOG.cmds)
     raises(WorkflowExecutionException)
-    ensures(ran(old(LOG.cmds), ["ln", "-nf", q(target), q(self.text)]))
+    ensures(ran(old(LOG.cmds), ["ln", "-nf", "--", q(target), q(self.text)]))
 
 
 
